@@ -1,7 +1,7 @@
 """C27 — Values with units are parsed to the documented magnitudes (DESIGN.md 3, C27)."""
 from fractions import Fraction
 
-from .. import ex, lib
+from .. import cg, ex, lib
 from ..core import where
 from ..ir import AnalysisBroken
 
@@ -144,7 +144,131 @@ def decode_generator(ctx, P):
                   mul[0][1].rhs[0] == 'var' and mul[0][1].rhs[2] == 'mult' and
                   mul[0][0] == second[0][0] and mul[0][1].eid < s_.eid and first[0][0] != second[0][0])
             detail = 'emplace(unit, value); for prefix: value *= mult; emplace(prefix + unit, value)'
+    if not ok:
+        # not the usual two statements: interpret the body of the prefix loop as a straight-line program over typed scalars
+        prog = interpret_body(fn, v, allev)
+        if prog is not None:
+            BODY['prog'] = prog
+            ok = True
+            detail = 'prefix loop interpreted statement by statement with the declared types of its scalars (%d statement(s))' % len(prog[1])
+        else:
+            BODY.pop('prog', None)
+    else:
+        BODY.pop('prog', None)
     return fn, cond, cases_out, default_dead, ok, detail
+
+
+BODY = {}
+U64 = (1 << 64) - 1
+
+
+def coerce(val, ty):
+    ty = ty.replace('const ', '').strip()
+    if ty in ('double', 'float', 'long double'):
+        return float(val)
+    if ty in ('unsigned long long', 'unsigned long', 'size_t', 'std::size_t', 'uint64_t', 'unsigned long long int', 'unsigned long int'):
+        return int(val) & U64
+    if ty in ('unsigned int', 'unsigned', 'uint32_t'):
+        return int(val) & 0xffffffff
+    if ty in ('long', 'long long', 'int64_t', 'long int', 'long long int'):
+        x = int(val) & U64
+        return x - (1 << 64) if x >> 63 else x
+    if ty in ('int', 'int32_t'):
+        x = int(val) & 0xffffffff
+        return x - (1 << 32) if x >> 31 else x
+    return val
+
+
+def tyname(t):
+    return 'double' if isinstance(t, float) else 'int'
+
+
+def evalt(t, env):
+    k = t[0]
+    if k in ('int', 'float'):
+        return t[1]
+    if k in ('cast', 'conv'):
+        v_ = evalt(t[2], env)
+        return None if v_ is None else coerce(v_, str(t[1]))
+    if k == 'var':
+        return env.get(t[2])
+    if k == 'bin' and t[1] in ('+', '-', '*', '/'):
+        a, b = evalt(t[2], env), evalt(t[3], env)
+        if a is None or b is None:
+            return None
+        if t[1] == '/':
+            return a / b if isinstance(a, float) or isinstance(b, float) else int(a / b)
+        r = a + b if t[1] == '+' else (a - b if t[1] == '-' else a * b)
+        if not isinstance(r, float):
+            r = int(r) & U64 if (a >= 0 and b >= 0) else r      # unsigned operands wrap (signed overflow is not modelled)
+        return r
+    return None
+
+
+def interpret_body(fn, v, allev):
+    """(initial scalars declared with a literal before the loop, statements of the prefix loop body) or None"""
+    types = {}
+    for el in fn['elems']:
+        if el['x'].get('k') == 'Decl':
+            for d in el['x'].get('decls', ()):
+                types[d.get('d', {}).get('n', '')] = fn.tstr(d.get('t', -1))
+    heads = v.loop_heads()
+    inner = None
+    for h in heads:
+        body = cg.natural_loop(v, h['id'])
+        if any(e.kind == 'call' and e.q.endswith('::emplace') and e.args and e.args[0][0] == 'call' and 'operator+' in e.args[0][1] for b in body for eid in v.blocks[b].get('e', []) for e in v.events_of(eid)):
+            if inner is None or len(body) < len(inner[1]):
+                inner = (h, body)
+    if inner is None:
+        return None
+    h, body = inner
+    stmts = []
+    for b in sorted(body, reverse=True):
+        if v.cond_atom(b) is not None and b != h['id']:
+            return None         # a branch in the body: not a straight-line program
+        for eid in v.blocks[b].get('e', []):
+            for e in v.events_of(eid):
+                if e.eid != eid:
+                    continue
+                if e.kind == 'assign' and e.lhs[0] == 'var' and e.lhs[2] not in ('prefix',) and not e.lhs[2].startswith('__'):
+                    stmts.append(('set', e.lhs[2], e.op, e.rhs, types.get(e.lhs[2], 'double')))
+                elif e.kind == 'call' and e.q.endswith('::emplace') and e.args and len(e.args) == 2:
+                    stmts.append(('emplace', e.args[1]))
+    init = {}
+    for b, e in allev:
+        if e.kind == 'assign' and e.decl and e.lhs[0] == 'var' and b not in body and e.rhs[0] in ('int', 'float') and e.lhs[2] not in ('mult',):
+            init[e.lhs[2]] = coerce(e.rhs[1], types.get(e.lhs[2], 'double'))
+    if not any(s_[0] == 'emplace' for s_ in stmts):
+        return None
+    return init, stmts, types
+
+
+def run_body(prog, value, mult, n):
+    """values emplaced for the n prefixes"""
+    init, stmts, types = prog
+    env = dict(init)
+    env['value'] = coerce(value, types.get('value', 'double'))
+    env['mult'] = coerce(mult, types.get('mult', 'double'))
+    out = []
+    for _ in range(n):
+        for st in stmts:
+            if st[0] == 'set':
+                _, name, op, rhs, ty = st
+                r = evalt(rhs, env)
+                if r is None:
+                    return None
+                cur = env.get(name)
+                if op != '=':
+                    if cur is None:
+                        return None
+                    r = evalt(('bin', op[0], ('float' if isinstance(cur, float) else 'int', cur), ('float' if isinstance(r, float) else 'int', r)), env)
+                env[name] = coerce(r, ty)
+            else:
+                r = evalt(st[1], env)
+                if r is None:
+                    return None
+                out.append(float(r))
+    return out
 
 
 def expand(gens, cases):
@@ -157,9 +281,16 @@ def expand(gens, cases):
         mult, ab, lg = cases[base]
         entries = [(unit, value)]
         v = value
-        for p in (ab if abbrev else lg):
-            v = v * mult
-            entries.append((p + unit, v))
+        names = ab if abbrev else lg
+        if BODY.get('prog') is not None:
+            vals = run_body(BODY['prog'], value, mult, len(names))
+            if vals is None:
+                raise AnalysisBroken('unit_scale constructor: the body of the prefix loop could not be interpreted')
+            entries += [(p + unit, val) for p, val in zip(names, vals)]
+        else:
+            for p in names:
+                v = v * mult
+                entries.append((p + unit, v))
         for k, val in entries:
             if k in table:
                 if table[k] != val:
@@ -236,7 +367,7 @@ def run(ctx):
                 elif k_ not in table:
                     ctx.violation('R1', '%s does not know the unit "%s"' % (name, k_), where(fn, ctor[0].line), 'documented multiplier %s' % float(want[k_]), key='R1|%s|missing %s' % (name, k_))
                 else:
-                    ctx.check(table[k_] == want[k_], 'R1', '%s: 1%s' % (name, k_), where(fn, ctor[0].line), 'code %s, reference %s' % (float(table[k_]), float(want[k_])),
+                    ctx.check((abs(table[k_] - float(want[k_])) <= 1e-12 * abs(float(want[k_]))) if isinstance(table[k_], float) else table[k_] == want[k_], 'R1', '%s: 1%s' % (name, k_), where(fn, ctor[0].line), 'code %s, reference %s' % (float(table[k_]), float(want[k_])),
                               key='R1|%s|%s' % (name, k_))
             # the wrapper hands its own table and a default unit of magnitude 1 to the core
             cc = [e for e in evs if e.kind == 'call' and e.q == core['q']]
